@@ -245,3 +245,11 @@ def test_fixed_F20_augment_of_an_augmented_mdp():
     m = Dict2MDP({0: {'a': {1: 1.0}}, 1: {'a': {1: 1.0}}}, {(0, 'a'): -1.0}, {0: 1.0}, absorbing=[1], gamma=0.9)
     twice = augment(augment(m, reward=lambda s, a, ns: 5.0), is_absorbing=lambda s: False)
     assert twice.reward(0, 'a', 1) == 5.0 and twice.is_absorbing(1) is False and tuple(twice.actions(0)) == ('a',)
+
+
+def test_fixed_F21_rmax_with_an_unreachable_listed_state():
+    from msdm.algorithms.rmax import RMAX
+    m = Dict2MDP({'s': {'a': {'g': 1.0}}, 'u': {'a': {'g': 1.0}}, 'g': {'a': {'g': 1.0}}}, {('s', 'a'): -1.0, ('u', 'a'): -1.0},
+                 {'s': 1.0}, absorbing=['g'], gamma=0.9, lists=(('s', 'u', 'g'), ('a',)))
+    res = RMAX(episodes=2, rmax=0.0, num_transition_samples=1, seed=0).train_on(m)
+    assert set(res.q_values) == {'s', 'u', 'g'} and res.q_values['s']['a'] == pytest.approx(-1.0)
